@@ -109,6 +109,15 @@ Section Draws.
     apply in_map_iff in Hin as [x [[= -> <-] _]]. apply in_map_iff in Hin' as [x' [[= -> <-] _]]. reflexivity.
   Qed.
 
+  (* ---- sample_from_distribution: the sample of a label is ppf of the label's own draw ---- *)
+  Lemma sample_single ppf im k idx ds : get_draw false im k idx = Ok ds ->
+    sample_from K block ppf false im k idx = Ok (map ppf ds) /\
+    forall l d, In (l, d) (combine idx ds) -> sample_from K block ppf false im k [l] = Ok [ppf d].
+  Proof.
+    intros H. unfold sample_from. rewrite H. split; [reflexivity|].
+    intros l d Hin. now rewrite (single im k idx ds H l d Hin).
+  Qed.
+
   (* ---- [0,1) ---- *)
   Lemma zseq_length s n : length (zseq s n) = n.
   Proof. revert s; induction n as [|n IH]; intros s; simpl; [reflexivity | now rewrite IH]. Qed.
